@@ -24,6 +24,7 @@ ASSUMPTIONS = ["observations are identified by a unique id feature and unique po
                "'+' is judged only between tracks with the same feature table (the property says 'carried over')"]
 EXHAUSTIVE = {"quick": "all arguments of each operation for every generated track of size <= 7",
               "thorough": "all arguments of each operation for every generated track of size <= 10 (removeObsList subsets for size <= 8, sampled above)"}
+SOFT_MONITORS = ['getInsertionIndex.keeps_sorted']      # contracts on private helpers: diagnostics, see vt/runner.py
 CASE_LIMIT_S = 60.0
 
 OPS = ["sort", "insert", "insert_chain", "extract", "span", "add", "mod_int", "mod_pattern", "gt", "lt",
@@ -629,7 +630,7 @@ def run_case(case, ctx):
         for _ in range(rng.randrange(4, 13)):
             kinds = ["add", "insert_at", "sort", "sort"]
             if model:
-                kinds += ["setitem", "setitem", "setobs", "remove", "pop"]
+                kinds += ["setitem", "setitem", "setobs", "remove", "pop", "rejected_remove"]
             if all(model[i][1] <= model[i + 1][1] for i in range(len(model) - 1)):
                 kinds += ["insert_chrono", "insert_chrono"]
             kd = rng.choice(kinds)
@@ -657,6 +658,26 @@ def run_case(case, ctx):
                 i = rng.randrange(len(model))
                 r = M.call(tr.removeObs, i)
                 del model[i]
+            elif kd == "rejected_remove":
+                # error path: a removal request that cannot be honoured (an index beyond the end next to a valid
+                # one, or the same index twice).  Whether it raises or reports, what it leaves must still be a
+                # sequence of the track's own observations in their order; the model follows what is there.
+                i = rng.randrange(len(model))
+                bad = [i, len(model) + rng.randrange(1, 50)] if rng.random() < 0.6 else [i, i]
+                before_objs = list(tr.getObsList())
+                M.call(tr.removeObsList, bad)
+                ctx.count("rejected_removal_request")
+                now = M.call(lambda: list(tr.getObsList()))
+                pos = {id(o): k for k, o in enumerate(before_objs)}
+                if M.is_raised(now) or any(id(o) not in pos for o in now) or \
+                        any(pos[id(a)] >= pos[id(b)] for a, b in zip(now, now[1:])):
+                    J.fail("after a removal request that was rejected the track no longer holds (a sub-sequence of) its "
+                           "own observations", args={"steps": steps, "request": bad},
+                           got=repr(now)[:300])
+                    break
+                keep = [pos[id(o)] for o in now]
+                model = [model[k] for k in keep]
+                r = None
             elif kd == "pop":
                 i = rng.randrange(len(model))
                 r = M.call(tr.popObs, i)
